@@ -133,3 +133,40 @@ func VerifC02KernelCached() { c02Kernel(2, 2, 1, 2, true) }
 func VerifC02OnePass()      { c02Kernel(2, 1, 2, 3, false) }
 func VerifC02Wide()         { c02Kernel(3, 2, 1, 3, false) }
 func VerifC02ThreePass()    { c02Kernel(2, 3, 1, 2, false) }
+
+// VerifC02ScopeLevel: the same guarantee observed through the scope/registry report pass: an
+// updater and a report pass run concurrently; once both are done, the next pass leaves the
+// reporter holding the last update (and a further pass delivers nothing).
+func VerifC02ScopeLevel() {
+	rec := &lockedReporter{}
+	root := newRootScope(ScopeOptions{Reporter: rec, OmitCardinalityMetrics: true, registryShardCount: 1}, 0)
+	g := root.Gauge("g")
+	other := root.Gauge("other")
+	v1, v2 := verifrt.Float64("v"), verifrt.Float64("v")
+	g.Update(v1)
+	var wg sync.WaitGroup
+	verifrt.Explore(2)
+	wg.Add(2)
+	go func() { defer wg.Done(); other.Update(1); g.Update(v2) }()
+	go func() { defer wg.Done(); root.reportRegistry() }()
+	wg.Wait()
+	verifrt.StopExplore()
+	root.reportRegistry()
+	last := func() (uint64, int) {
+		var bits uint64
+		n := 0
+		for _, c := range rec.calls {
+			if c.kind == "gauge" && c.name == "g" {
+				bits = fbits(c.f)
+				n++
+			}
+		}
+		return bits, n
+	}
+	bits, n := last()
+	verifrt.Assert("c02.scope.reporter-holds-the-latest-update", verifrt.And(n >= 1, bits == fbits(v2)))
+	root.reportRegistry()
+	_, n2 := last()
+	verifrt.Assert("c02.scope.nothing-delivered-again", n2 == n)
+	verifrt.Reach("c02.scope.end")
+}
